@@ -328,8 +328,12 @@ def check(case):
                     if np.isfinite(c) and c < 1e6:
                         resonant = any(l['kind'] in ('trap', 'laplace') or (l['kind'] == 'rlc' and l['L'] and l['C']) for l in case['loads'])
                         tol = (2e-3 if resonant or case['loads'] else 1e-4) * (1 + c / 1e3)
+                        imax_ = np.abs(np.array(m.current)).max()
                         for a, b in zip(m.sources, mb.sources):
-                            if abs(a.impedance - b.impedance) > tol * abs(a.impedance):
+                            # with several sources the impedance of a port is V / (current caused by all sources): a
+                            # port that carries little current amplifies every difference by max|I| / |I_port|
+                            amp = max(1.0, imax_ / max(abs(a.current), 1e-300)) if len(m.sources) > 1 else 1.0
+                            if abs(a.impedance - b.impedance) > tol * amp * abs(a.impedance):
                                 sig = 'readback:impedance'
                                 # classification: known finding F-C06 (which wires count as connected depends on
                                 # which wire is listed first at a junction; a chain of one-segment wires has
